@@ -32,7 +32,7 @@ def model_check(ctx):
         ctx.add(reachability_witnesses=1)
 
 def scenarios(ctx, shapes, rnd):
-    budget_ms = (20000 if ctx.quick else 150000)
+    budget_ms = (30000 if ctx.quick else 500000)
     scen = []; blocks = {}; keylens = {}
     fam_algs = {}
     for a, (B, L, fam) in ALGS.items(): fam_algs.setdefault(fam, []).append(a)
@@ -68,7 +68,7 @@ def run(ctx):
         builds = fut.result()
     scen, blocks, keylens = scenarios(ctx, shapes, rnd)
     ctx.log("%d scenarios, estimated reference blocks per family: %s" % (len(scen), blocks))
-    paths = hashrig.run_scenarios(ctx, builds, scen, "hmac", tlc_timeout=(600 if ctx.quick else 3000))
+    paths = hashrig.run_scenarios(ctx, builds, scen, "hmac", tlc_timeout=(600 if ctx.quick else 4000))
     nontriv = set((s["alg"], s["key"], s["msg"], tuple(s["chunks"])) for s in scen if len(s["msg"]) + len(s["key"]) > 0)
     ctx.add(distinct_nontrivial=len(nontriv), scenarios=len(scen), builds=[b for b, _ in builds],
             reference_blocks_evaluated_by_TLC=blocks,
